@@ -116,7 +116,8 @@ pub fn fkey(id: &str, ext: &str) -> String {
     format!("{id}/{ext}")
 }
 pub fn unfkey(k: &str) -> (&str, &str) {
-    k.split_once('/').unwrap()
+    // extensions never contain '/', ids may
+    k.rsplit_once('/').unwrap()
 }
 pub fn parent_id(id: &str) -> Option<&str> {
     if id.is_empty() {
